@@ -164,6 +164,11 @@ where
     }
 
     fn fetch_n(&self, n: usize) -> Option<NextChunk<T, impl ExactSizeIterator<Item = T>>> {
+        if n == 0 {
+            // nothing is requested: nothing is pulled, and this says nothing about the end of the iteration
+            return None;
+        }
+
         self.progress_and_get_begin_idx(n).and_then(|begin_idx| {
             // SAFETY: no other thread has the valid condition to iterate, they are waiting
             let iter = unsafe { self.mut_iter() };
